@@ -309,6 +309,9 @@ pub fn check(start: Start, b: &[u8], ctx: &mut Ctx) -> Result<(), Failure> {
     let mut judged = 0;
     for (entry, lax, is_struct, o) in &errs {
         let r = if *lax { &rl } else { &rs };
+        if *lax && rl.policy_ambiguous {
+            continue; // undocumented lax policy (ether type vs version nibble), see refdec
+        }
         // struct decoding does not see anything behind an extension header that no longer fits
         if *is_struct && struct_stop_index(r).is_some() {
             continue;
